@@ -52,6 +52,7 @@ def mutants(prog):
         ("mha writer: channel count of channel-less data", M, "write_meta_image", "data.shape[0] if data.ndim == grid.ndim + 1 else 1", "data.shape[0]", "T18.channel-less"),
         ("sitk: uint16 widened to int16", T, "tensor_from_image", "image = sitk.Cast(image, sitk.sitkInt32)", "image = sitk.Cast(image, sitk.sitkInt16)", "T18.sitk-types"),
         ("sitk: uint32 not widened", T, "tensor_from_image", "elif image.GetPixelID() == sitk.sitkUInt32:", "elif image.GetPixelID() == sitk.sitkUInt64:", "T18.sitk-types"),
+        ("meta writer: bytes in memory order", M, "meta_image_bytes", "blob = data.astype(meta['ElementType']).tobytes()", "blob = data.astype(meta['ElementType']).tobytes(order='A')", "T18.strided"),
     ]
     for name, mod, fn, old, new, expect in specs:
         if expect == "SKIP":
